@@ -1,3 +1,72 @@
+(** C05 — scoped, grouped and aliased names denote the intended signal; context restored.
+    Statements only; proofs in proofs/ScopeProofs.v and proofs/Balanced.v.
+    PARTIAL: `groups` is modelled as the literal prefix/suffix computation the property states
+    (Eval.op_groups); that the implementation's regular expression computes it is decided by
+    the differential check against a brute-force oracle, not by a theorem. *)
 From WalModel Require Import Eval.
-Theorem tmp : True. Proof. exact I. Qed.
-Print Assumptions tmp.
+From WalModel.proofs Require Import Balanced ScopeProofs.
+Local Open Scope Z_scope.
+
+(** ~n denotes S.n when the captured scope S is a real scope (S immediately followed by n
+    otherwise), through the current alias of n *)
+Theorem scoped_reference : forall ev n s st cs,
+  read_global "CS" st = Ok (VStr cs) st ->
+  op_resolve_scope ev [VSym n s] st =
+  read_named_signal ev (if smem cs (cont_scopes (st_cont st)) then cs ++ "." ++ alias_of st n else cs ++ alias_of st n) st.
+Proof. exact scoped_ref_denotes. Qed.
+Print Assumptions scoped_reference.
+
+(** #n denotes the signal named G immediately followed by n *)
+Theorem grouped_reference : forall ev n s st,
+  op_resolve_group ev [VSym n s] st = read_named_signal ev (st_group st ++ alias_of st n) st.
+Proof. exact grouped_ref_denotes. Qed.
+Print Assumptions grouped_reference.
+
+(** a reference to a signal that does not exist raises an error instead of yielding a value *)
+Theorem missing_signal_is_an_error : forall ev name st,
+  cont_contains (st_cont st) name = Some false -> read_named_signal ev name st = Er EEval st.
+Proof. exact missing_signal_raises. Qed.
+Print Assumptions missing_signal_is_an_error.
+
+(** an alias denotes the same signal as its target's full name, whatever it was before
+    (aliases are looked up at every reference) *)
+Theorem alias_reference : forall ev n a st,
+  alookup n (st_aliases st) = Some a -> cont_contains (st_cont st) a = Some true ->
+  eval_symbol ev n None st = signal_value_m ev a (st_scope st) st.
+Proof. exact alias_denotes. Qed.
+Print Assumptions alias_reference.
+
+(** in-scope runs its body with the captured scope and CS set to S ... *)
+Theorem in_scope_body : forall ev s e st sv st1 name,
+  ev s st = Ok sv st1 -> name_of sv = Some name ->
+  op_in_scope ev [s; e] st =
+  (set_scope_cs name ;;; r <- ev e ;; set_scope_cs (st_scope st) ;;; ret r) st1.
+Proof. exact in_scope_body_runs_in_scope. Qed.
+Print Assumptions in_scope_body.
+
+(** ... and when it finishes the captured scope and CS are what they were before it started
+    (hence LOCAL-SIGNALS / LOCAL-SCOPES, which are functions of the captured scope) *)
+Theorem in_scope_context_restored : forall ev s e st v st',
+  op_in_scope ev [s; e] st = Ok v st' ->
+  st_scope st' = st_scope st /\ read_global "CS" st' = Ok (VStr (st_scope st)) st'.
+Proof. exact in_scope_restores. Qed.
+Print Assumptions in_scope_context_restored.
+
+Theorem in_group_context_restored : forall ev g body st v st',
+  op_in_group ev (g :: body) st = Ok v st' ->
+  st_scope st' = st_scope st /\ st_group st' = st_group st /\
+  read_global "CS" st' = Ok (VStr (st_scope st)) st'.
+Proof. exact in_group_restores. Qed.
+Print Assumptions in_group_context_restored.
+
+Theorem all_scopes_context_restored : forall ev body st v st',
+  op_all_scopes ev [body] st = Ok v st' ->
+  st_scope st' = st_scope st /\ exists cs, read_global "CS" st = Ok cs st /\ read_global "CS" st' = Ok cs st'.
+Proof. exact all_scopes_restores. Qed.
+Print Assumptions all_scopes_context_restored.
+
+(** writing a variable and reading it back (used for CS/CG) *)
+Theorem variable_write_read : forall id n v st st',
+  env_write id n v st = Ok tt st' -> env_read id n st' = Ok v st'.
+Proof. exact write_then_read. Qed.
+Print Assumptions variable_write_read.
